@@ -95,13 +95,20 @@ static void case_c01(rng_t *r, ctx_t *c) {
     int nsig = (int) rng_range(r, 1, 3);
     oplist_t lists[3]; memset(lists, 0, sizeof(lists));
     char feat[3][160];
+    /* one case in four: a lower-numbered FSR signal that is defined and never written (a reader that learns the first
+     * sample ids at open has to step over it) */
+    int idle = rng_chance(r, 1, 4);
+    if (idle) {
+        struct jls_signal_def_s e; gen_def(r, &e, 1, 1, pick_type(r), DEF_MINIMAL); e.sample_id_offset = 0;
+        prog_add_signal(&p, &e, "idle-below", "", PAT_RANDOM, rng_u64(r));
+    }
     for (int i = 0; i < nsig; ++i) {
         const dtype_t *t = pick_type(r);
         int dcls = (int) rng_below(r, DEF_CLASS_COUNT);
         if (dcls == DEF_BIGBLOCK && !rng_chance(r, 1, 6)) dcls = DEF_SMALL;
         if (dcls == DEF_DEFAULTS && !rng_chance(r, 1, 3)) dcls = DEF_MINIMAL;
         struct jls_signal_def_s d, nm;
-        gen_def(r, &d, (uint16_t) (i + 1 + rng_below(r, 3) * 10), 1, t, dcls);
+        gen_def(r, &d, (uint16_t) (i + 2 + rng_below(r, 3) * 10), 1, t, dcls);
         int fcls; int64_t first = gen_first_id(r, &fcls);
         d.sample_id_offset = first;   /* generator bookkeeping for block-aligned patterns; the writer ignores it */
         def_normalised(&d, &nm);
@@ -126,7 +133,7 @@ static void case_c01(rng_t *r, ctx_t *c) {
     sample_prog("C01", &p);
     int accepted = 0;
     for (int i = 1; i < 256; ++i) if (m.sig[i].defined && m.sig[i].have) accepted++;
-    for (int i = 0; i < nsig; ++i) v_feature("C01", accepted > 0, "%s", feat[i]);
+    for (int i = 0; i < nsig; ++i) v_feature("C01", accepted > 0, "%s%s", feat[i], idle ? "|idle-signal-below" : "");
     if (rc) v_violation("C01", "writer-close-error", NULL, "writer open/close returned %d", rc);
     decode_and_compare(path, &m, "C05", "sync", 0);
     verify_opts_t vo = {.prop_len = "C01", .prop_data = "C01", .windows = c->thorough ? 40 : 24, .check_defs = 1, .rng = r, .file_kind = "sync"};
@@ -194,6 +201,9 @@ static void case_c02(rng_t *r, ctx_t *c) {
     }
     int pat = rng_chance(r, 3, 4) ? PAT_WALK : PAT_SMALL;
     if (t->bits >= 16 && rng_chance(r, 1, 3)) pat = PAT_OFFSET;
+    /* blocks the writer omits (constant) or must not omit (constant bytes, different samples inside a byte; constant but
+     * for one sample): level-0 statistics and the edges of summary-level requests are then computed from rebuilt blocks */
+    if (t->bits <= 8 && rng_chance(r, 1, 3)) pat = PAT_BLOCKCONST;
     int si = prog_add_signal(&p, &d, "stat", "A", pat, rng_u64(r));
     p.sig[p.ops[si].def].blk = nm.samples_per_data;
     oplist_t l; memset(&l, 0, sizeof(l));
@@ -292,7 +302,7 @@ static void case_c09(rng_t *r, ctx_t *c) {
             en += (size_t) snprintf(evs + en, sizeof(evs) - en, "g%d", gc);
         } else {
             /* overlap: starts before the next expected id */
-            int oc = (int) rng_below(r, 9);
+            int oc = (int) rng_below(r, 10);
             int64_t have = pos - first;
             int64_t back;
             switch (oc) {
@@ -301,9 +311,10 @@ static void case_c09(rng_t *r, ctx_t *c) {
                 case 4: back = n + rng_range(r, 0, 5); break;          /* total overlap: nothing new */
                 case 5: back = fillcap + 17; break;                    /* longer than the internal scratch */
                 case 7: case 8: back = rng_range(r, 1, 9); break;      /* the NEW part is longer than one / several scratch pieces */
+                case 9: back = rng_range(r, 1, 3) * 4294967296LL + rng_range(r, 0, n - 1); break;   /* a stale block stamped k * 2^32 too low (a 32-bit counter that missed a wrap): all of it is old */
                 default: back = rng_range(r, 1, have); break;
             }
-            if (back > have) back = have;
+            if (back > have && oc != 9) back = have;
             if (back < 1) back = 1;
             if (oc == 5) n = back + rng_range(r, 1, spd);
             if (oc == 7) n = back + fillcap + rng_range(r, -9, spd + 9);
@@ -479,6 +490,9 @@ static void case_c12(rng_t *r, ctx_t *c) {
     }
     int64_t maxn = c->thorough ? 12000 : 2500;
     if (n > maxn) n = maxn;
+    /* more than 2^15 entries at the smallest factor: the index reaches its highest level (15) and that level's list
+     * holds more than one chunk (the only list of INDEX chunks the seek walks) */
+    if (udf == 2 && rng_chance(r, 1, c->thorough ? 4 : 6)) { n = 32768 + rng_range(r, 1, c->thorough ? 40000 : 4000); ncls = 10; }
     /* anchors: increasing sample ids, non-decreasing times, >= 1 tick per sample */
     long double ticks_per_sample = (long double) JLS_TIME_SECOND / d.sample_rate;
     int64_t sid = first + rng_range(r, 0, 20);
